@@ -8,8 +8,11 @@ package mcp
 // announced, a read after the handled notification returns the new contents.
 
 import (
+	"bufio"
 	"context"
+	"encoding/json"
 	"fmt"
+	"io"
 	"net/http"
 	"slices"
 	"sort"
@@ -147,7 +150,7 @@ func c18kConnect(s *Server, version string, n *c18kCounts) (*ClientSession, erro
 		ResourceUpdatedHandler:     func(context.Context, *ResourceUpdatedNotificationRequest) { n.updated++ },
 	})
 	if c18kTransport == "http" {
-		h := NewStreamableHTTPHandler(func(*http.Request) *Server { return s }, &StreamableHTTPOptions{Stateless: version >= "2026-07-28", Logger: quietLogger})
+		h := NewStreamableHTTPHandler(func(*http.Request) *Server { return s }, &StreamableHTTPOptions{Stateless: version == "2026-07-28", Logger: quietLogger})
 		hx := &hxTransport{Handler: h}
 		return cl.Connect(ctx, &StreamableClientTransport{Endpoint: "http://srv.test/mcp", HTTPClient: hx.client(), MaxRetries: -1}, &ClientSessionOptions{ProtocolVersion: version})
 	}
@@ -413,6 +416,92 @@ func c18kListenIndependence(version string) (obs, sig, msg string) {
 	return "listen-independence ok", "", ""
 }
 
+// c18kRawLegacy: a peer that is not the SDK's client opens a session with the initialize handshake,
+// naming whatever version it likes (a newer SDK names its own latest one; the server answers with a
+// version of its own, and the session is a legacy session).  Whatever was named, the session is
+// entitled to list-changed and resource-updated notifications, and the server may send it requests.
+func c18kRawLegacy(version string) (obs, sig, msg string) {
+	fail := func(s, format string, a ...any) (string, string, string) {
+		return "", "c18 kinds raw-legacy " + s, fmt.Sprintf(format, a...) + fmt.Sprintf(" [initialize named %s]", version)
+	}
+	ctx := context.Background()
+	s := c18kServer(0)
+	for _, kk := range c18kKinds() {
+		kk.add(s, "base")
+	}
+	ct, st := NewInMemoryTransports()
+	ss, err := s.Connect(ctx, st, nil)
+	if err != nil {
+		return fail("connect", "%v", err)
+	}
+	peer := ct.rwc
+	defer func() { peer.Close(); ss.Close(); synctest.Wait() }()
+	var lines []string
+	go func() {
+		sc := bufio.NewScanner(peer)
+		sc.Buffer(make([]byte, 1<<20), 1<<20)
+		for sc.Scan() {
+			lines = append(lines, sc.Text())
+			// answer the server's own requests
+			var m struct {
+				ID     json.RawMessage `json:"id"`
+				Method string          `json:"method"`
+			}
+			if json.Unmarshal(sc.Bytes(), &m) == nil && m.Method == "roots/list" && m.ID != nil {
+				io.WriteString(peer, `{"jsonrpc":"2.0","id":`+string(m.ID)+`,"result":{"roots":[]}}`+"\n")
+			}
+		}
+	}()
+	send := func(l string) { io.WriteString(peer, l+"\n") }
+	count := func(method string) int {
+		n := 0
+		for _, l := range lines {
+			if strings.Contains(l, `"method":"`+method+`"`) {
+				n++
+			}
+		}
+		return n
+	}
+	send(`{"jsonrpc":"2.0","id":1,"method":"initialize","params":{"protocolVersion":"` + version + `","capabilities":{"roots":{}},"clientInfo":{"name":"newer-sdk","version":"9"}}}`)
+	synctest.Wait()
+	if len(lines) != 1 || !strings.Contains(lines[0], `"result"`) {
+		return fail("initialize-refused", "initialize answered with %q", lines)
+	}
+	var init struct {
+		Result struct {
+			ProtocolVersion string `json:"protocolVersion"`
+		} `json:"result"`
+	}
+	json.Unmarshal([]byte(lines[0]), &init)
+	if init.Result.ProtocolVersion >= "2026-07-28" || init.Result.ProtocolVersion == "" {
+		return fail("initialize-answered-modern", "initialize answered with version %q", init.Result.ProtocolVersion)
+	}
+	send(`{"jsonrpc":"2.0","method":"notifications/initialized","params":{}}`)
+	send(`{"jsonrpc":"2.0","id":2,"method":"resources/subscribe","params":{"uri":"file:///base"}}`)
+	synctest.Wait()
+	for _, kk := range c18kKinds() {
+		kk.add(s, "x")
+	}
+	time.Sleep(time.Second) // the debounce delay passes
+	synctest.Wait()
+	for _, m := range []string{"notifications/tools/list_changed", "notifications/prompts/list_changed", "notifications/resources/list_changed"} {
+		if count(m) == 0 {
+			return fail("notification-lost "+m, "the session (initialize answered with %s) was sent no %s after a change; it received %q", init.Result.ProtocolVersion, m, lines)
+		}
+	}
+	s.ResourceUpdated(ctx, &ResourceUpdatedNotificationParams{URI: "file:///base"})
+	synctest.Wait()
+	if count("notifications/resources/updated") != 1 {
+		return fail("update-notification-lost", "subscribed to file:///base, yet %d resources/updated notifications arrived: %q", count("notifications/resources/updated"), lines)
+	}
+	rctx, cancel := context.WithTimeout(ctx, time.Minute)
+	defer cancel()
+	if _, err := ss.ListRoots(rctx, nil); err != nil {
+		return fail("server-request-refused", "the session (initialize answered with %s) declared the roots capability, yet ListRoots fails: %v", init.Result.ProtocolVersion, err)
+	}
+	return "raw legacy session answered " + init.Result.ProtocolVersion, "", ""
+}
+
 func TestVerifC18Kinds(t *testing.T) {
 	env := verifx.LoadEnv("C18")
 	res := env.NewResult()
@@ -449,7 +538,9 @@ func TestVerifC18Kinds(t *testing.T) {
 				return o + " " + tr, sg, m
 			}
 		}
-		for _, version := range []string{"2025-06-18", "2026-07-28"} {
+		// "2029-01-01" and "1999-01-01": versions the server does not know; it answers initialize with the
+		// newest legacy version, and the session is a legacy session like any other
+		for _, version := range []string{"2025-06-18", "2026-07-28", "2024-11-05", "2029-01-01", "1999-01-01"} {
 			for _, ttl := range []int{0, 60000} {
 				for _, k := range c18kKinds() {
 					run(fmt.Sprintf("list kind=%s version=%s ttl=%d transport=%s", k.name, version, ttl, tr), via(func() (string, string, string) { return c18kListCase(k, version, ttl) }))
@@ -459,6 +550,9 @@ func TestVerifC18Kinds(t *testing.T) {
 			run(fmt.Sprintf("listen-independence version=%s transport=%s", version, tr), via(func() (string, string, string) { return c18kListenIndependence(version) }))
 		}
 		if tr == "inmem" {
+			for _, version := range []string{"2024-11-05", "2025-03-26", "2025-06-18", "2025-11-25", "2026-07-28", "2029-01-01", "1999-01-01", ""} {
+				run(fmt.Sprintf("raw-legacy initialize names %q", version), via(func() (string, string, string) { return c18kRawLegacy(version) }))
+			}
 			for _, ends := range []string{"older", "newer"} {
 				run(fmt.Sprintf("listen-overlap %s-ends", ends), via(func() (string, string, string) { return c18kListenOverlap(ends) }))
 			}
